@@ -554,6 +554,9 @@ class Engine:
             if len(v.items) != n:
                 raise Unsupported('unpack arity')
             return v.items
+        if isinstance(v, Sym) and v.ty.kind == 'tup' and len(v.ty.args) == n:
+            srt = v.ty.sort()
+            return [Sym(srt.accessor(0, i)(v.t), v.ty.args[i]) for i in range(n)]
         raise Unsupported('unpack of %r' % (v,))
 
     def set_attr(self, st, obj, attr, v, node):
@@ -838,8 +841,12 @@ class Engine:
         precise = getattr(self.intr, 'last_precise', {})
         if spec is not None and spec.modifies is not None:
             c = Ctx(self, st, st, self.cur_args, entry=self.entry_state)
+            # an explicit loop frame replaces the inferred one (fields and ghosts)
+            ghosts = set()
             for m in spec.modifies(c):
-                if isinstance(m, str):
+                if isinstance(m, str) and m.startswith('g:'):
+                    ghosts.add(m[2:])
+                elif isinstance(m, str):
                     self.hhavoc(st, m, 'Hl')
                 else:
                     self.hwrite(st, m[0], m[1], fresh('Hl!' + m[0], self.fields[m[0]].sort()))
@@ -898,9 +905,12 @@ class Engine:
         if phase == 'init':
             self.oblige(st, z3.BoolVal(True), 'inv-init', 'loop%d.applicable' % ordn,
                         props=spec.props or None, line=line)
-        for (label, f) in clauses:
+        for cl in clauses:
+            label, f = cl[0], cl[1]
+            # optional third component: property tags of this clause (else those of the spec)
+            props = list(cl[2]) if len(cl) > 2 else (spec.props or None)
             self.oblige(st, f, 'inv-' + phase, 'loop%d.%s' % (ordn, label),
-                        props=spec.props or None, line=line)
+                        props=props, line=line)
 
     def assume_inv(self, st, spec, pre, loopinfo):
         if spec is None:
@@ -910,8 +920,8 @@ class Engine:
             clauses = list(spec.inv(c))
         except (KeyError, AttributeError, TypeError, z3.Z3Exception):
             return
-        for (label, f) in clauses:
-            st.assume(f)
+        for cl in clauses:
+            st.assume(cl[1])
 
     def st_While(self, s, st):
         ordn, spec = self.loop_spec(s)
